@@ -6,6 +6,7 @@ import (
 	"strings"
 
 	"github.com/HobbyOSs/gosk/internal/zzverif/vrt"
+	"github.com/HobbyOSs/gosk/internal/zzverif/x86ref"
 )
 
 func init() { vrt.Register("zzverif.VC17", VC17) }
@@ -103,4 +104,107 @@ func VC17() {
 		acc.eqLE(out[len(want):], int64(org+len(want)))
 	}
 	vrt.Assert(acc.d == 0, "c17.mode")
+}
+
+func init() { vrt.Register("zzverif.VC17Decode", VC17Decode) }
+
+// mode-sensitive statements as structured values (the decoder's expectation
+// comes with them); the immediate is a solver variable
+func c17Stmt(k int, mode int, imm int64) Stmt {
+	abs := MemSpec{HasDisp: true, Disp: 0x0ff0}
+	switch k {
+	case 0:
+		return mkStmt("MOV", mode, R("AX"), I(imm))
+	case 1:
+		return mkStmt("MOV", mode, R("EAX"), I(imm))
+	case 2:
+		return mkStmt("ADD", mode, R("BX"), I(imm))
+	case 3:
+		return mkStmt("ADD", mode, R("ECX"), M(MemSpec{Base: "EBX", HasDisp: true, Disp: 4}))
+	case 4:
+		return mkStmt("MOV", mode, R("AL"), M(MemSpec{Base: "SI"}))
+	case 5:
+		return mkStmt("MOV", mode, M(abs), R("CX"))
+	case 6:
+		return mkStmt("PUSH", mode, R("EAX"))
+	case 7:
+		return mkStmt("POP", mode, R("BX"))
+	case 8, 9:
+		st := mkStmt("OUT", mode, I(0x60), R([]string{"AX", "EAX"}[k-8]))
+		st.Want.Ops[0].Size = 8
+		st.Want.OpSize = []int{16, 32}[k-8]
+		return st
+	case 10, 11:
+		st := mkStmt("IN", mode, R([]string{"AX", "EAX"}[k-10]), I(0x60))
+		st.Want.Ops[1].Size = 8
+		return st
+	case 12:
+		st := mkStmt("LGDT", mode, M(abs))
+		st.Want.Ops[0].Size = 0
+		return st
+	case 13:
+		return mkStmt("CMP", mode, M(MemSpec{Base: "SI", SizeKw: "WORD"}), I(imm))
+	case 14:
+		return mkStmt("PUSH", mode, I(imm))
+	case 15:
+		return mkStmt("MOV", mode, R("ECX"), M(MemSpec{Base: "BX", Index: "SI"}))
+	}
+	return mkStmt("RET", mode)
+}
+
+const c17NStmts = 17
+
+// VC17Decode: a statement that follows a BITS directive — wherever the
+// directive stands — decodes, in that mode, to exactly the statement written,
+// and the label after it is where its bytes end (an oracle independent of the
+// assembler's own output for the same mode).
+func VC17Decode() {
+	layouts := []string{"@", "[BITS M] ; @", "QX EQU 5 ; GLOBAL foo ; [FILE \"a.nas\"] ; here: ; [BITS M] ; @", "DB 0x55,0xAA ; [BITS M] ; @", "ORG 0x100 ; RESB 2 ; [BITS M] ; @", "[BITS N] ; [BITS M] ; @", "[INSTRSET \"i486p\"] ; [BITS M] ; @"}
+	prefixLen := []int{0, 0, 0, 2, 2, 0, 0}
+	orgs := []int{0, 0, 0, 0, 0x100, 0, 0}
+	layout := vrt.Choose("layout", len(layouts))
+	mode := []int{16, 32}[vrt.Choose("mode", 2)]
+	if layout == 0 {
+		vrt.Assume(mode == 16)
+	}
+	k := vrt.Choose("stmt", c17NStmts)
+	imm := int64(5)
+	if k == 0 || k == 1 || k == 2 || k == 13 || k == 14 {
+		imm = immediate("imm")
+	}
+	st := c17Stmt(k, mode, imm)
+	t, sb := st.Template()
+	tailLen := 2
+	if k == 16 {
+		// LGDT [label]: the label stands right behind the instruction
+		t = "LGDT [gd] ; gd: ; DW 23"
+		tailLen = 4
+	}
+	other := map[int]string{16: "32", 32: "16"}[mode]
+	text := strings.ReplaceAll(strings.ReplaceAll(layouts[layout], "M", map[int]string{16: "16", 32: "32"}[mode]), "N", other)
+	text = strings.ReplaceAll(text, "@", t)
+	src := strings.ReplaceAll(text, " ; ", "\n") + "\nlbl:\nDW lbl\n"
+	vrt.Note("src", src)
+	out, oc := AssembleT(src, sb, "s")
+	vrt.Note("outcome", oc)
+	vrt.NoteBytes("bytes", out)
+	pl := prefixLen[layout]
+	if oc != "ok" || diagnosed() || len(out) < pl+tailLen {
+		vrt.Reach("c17d.rejected")
+		return
+	}
+	vrt.Reach("c17d.accepted")
+	code := out[pl : len(out)-tailLen]
+	inst, ok := x86ref.Decode(code, mode, 0)
+	var acc diffAcc
+	acc.flag(!ok)
+	acc.flag(inst.Len != len(code))
+	if k == 16 {
+		w := mkStmt("LGDT", mode, M(MemSpec{HasDisp: true, Disp: int64(orgs[layout] + pl + len(code))}))
+		w.Want.Ops[0].Size = 0
+		st = w
+	}
+	compareInst(&acc, inst, st.Want)
+	acc.eqLE(out[len(out)-2:], int64(orgs[layout]+len(out)-2))
+	vrt.Assert(acc.d == 0, "c17.decode")
 }
